@@ -5,7 +5,7 @@ import hashlib
 
 import torch
 
-DTYPES = {"float64": torch.float64, "float32": torch.float32, "int64": torch.int64}
+DTYPES = {"float64": torch.float64, "float32": torch.float32, "int64": torch.int64, "bool": torch.bool}
 GUARD = 7.25  # sentinel written into guard zones of sliced layouts
 
 LAYOUTS = ["contig", "transposed", "expanded", "slice", "permuted"]
